@@ -126,6 +126,16 @@ def run(ctx):
             for gi in range(0, 4):
                 k += 1
                 cases.append(mkcase('E_r%d' % k, lib.new_cfg(select=['(extract_regex_group %s %s %d)=g' % (json.dumps(sj, ensure_ascii=False), json.dumps(rx, ensure_ascii=False), gi), '(match %s %s)=m' % (json.dumps(sj, ensure_ascii=False), json.dumps(rx, ensure_ascii=False))]), b'null'))
+    # time functions: every format string (unknown, truncated and padded specifiers included) x every kind of time value (round 13, C05_13)
+    TFMT = ['%Q', 'abc %', '%-', '%', '%Y-%m-%d', '%5', '%:', '%.3', '%#', '%3f', 'é%é', '', '%Y%', '%+', '%s%!', '%::::z', '%_', '%0']
+    TVAL = ['0', '-5', '2.5', '1700000000', '1e300', '-1e300', '253402300800', '"2020-01-01"', '"1700000000"', 'null']
+    k = 0
+    for f in TFMT:
+        for v in TVAL:
+            k += 1
+            fj = json.dumps(f, ensure_ascii=False)
+            cases.append(mkcase('E_t%d' % k, lib.new_cfg(select=['(format_time . %s)=f' % fj, '(parse_time . %s)=p' % fj, '(parse_time_with_zone . %s)=z' % fj,
+                                                                     '(format_time . .)=ff', '(parse_time %s .)=pp' % fj]), v.encode('utf8')))
     def proj(c, r, side):
         if c['id'].startswith('E'): return ('done' if r['result'] not in ('panic', 'hang', 'abort', 'stackoverflow') else r['result'],)
         # error messages quote the offending byte, which may itself be a line break: compare the rows only
